@@ -144,7 +144,8 @@ LEVEL_TEXT = ("Machine-checked theorems about an executable model of the ToDo de
               "no-op, promptness (a Step at/after the due time runs the front task, any timeout), handle-free - for every history "
               "of any length with arbitrary task bodies and clock advances. Tied to /repo by running generated histories on the real "
               "Driver/ToDo under a link-time virtual clock and comparing every task invocation (id, virtual time) and every poll "
-              "timeout with the model; the property predicate (reference bag scheduler) is also evaluated on the implementation trace.")
+              "timeout with the model; the property predicate (reference bag scheduler, Spec/C06.lean) is evaluated on the implementation trace, "
+              "and theorem spec_holds_on_model proves that this very predicate accepts every run of the model (any history, any bodies, any clock).")
 LEVEL_NOTE = ("Trusted: Lean kernel; axioms propext/Quot.sound/Classical.choice; hand-written model (correspondence on generated "
               "histories only); vos shim (virtual clock, poll interposition). Cross-thread calls are covered through C04's "
               "serialisation argument, not here. 'exactly one run if the driver keeps stepping' is the combination of "
